@@ -383,3 +383,14 @@ package database
 //@   at optional call invoke.Set assert ttl < 0 && !remove
 //@   at optional call invoke.SetWithExpire assert ttl >= 0 && !remove && arg2 == time.Duration(ttl) * time.Second
 //@   at optional call invoke.Remove assert remove
+
+// ---- C03: batch writes bypass the per-record checks, so a batch is only opened for an interface
+// that has all permissions (local and internal); every other interface gets a put function that
+// refuses
+//@ func (*Interface).PutMany
+//@   requires i != nil && i.options != nil
+//@   nopanic off
+//@   modifies *
+//@   ghost var local0 bool = i.options.Local
+//@   ghost var internal0 bool = i.options.Internal
+//@   at call (*Controller).PutMany assert local0 && internal0
